@@ -35,6 +35,9 @@ class ScopeGen:
 
     def val(self):
         self.n += 1
+        # now and then the value is nil: the name stays bound (to nil) where it is
+        if self.rng.random() < 0.12:
+            return {"k": "nil"}
         return G.num(self.n)
 
     def stmt(self, d, in_ns):
@@ -73,7 +76,9 @@ class ScopeGen:
         if k == "while":
             self.n += 1
             c = "gw%d" % self.n
-            return [G.assign(c, G.num(0)), {"k": "while", "c": [G.st_expr(G.binop("<", G.var(c), G.num(2)))],
+            # the condition block may bind locals of its own: they are gone when the body runs
+            pre = [{"k": "private", "name": r.choice(LOCALS), "x": self.val()}] if r.random() < 0.4 else []
+            return [G.assign(c, G.num(0)), {"k": "while", "c": pre + [G.st_expr(G.binop("<", G.var(c), G.num(2)))],
                                             "body": [probe(r.choice(LOCALS))] + body + [G.assign(c, G.binop("+", G.var(c), G.num(1)))]}]
         if k == "for":
             return [{"k": "for", "var": "_i", "from": G.num(0), "to": G.num(1), "body": [probe(r.choice(LOCALS))] + body}]
@@ -119,6 +124,13 @@ def systematic():
     P({"k": "foreach", "body": [probe("_s"), {"k": "private", "name": "_s", "x": v("_x")}, rd("_s")], "arr": A(n(1), n(2))}, probe("_s"), probe("_x"))
     P({"k": "for", "var": "_i", "from": n(0), "to": n(1), "body": [probe("_s"), G.assign("_s", n(5)), rd("_s")]}, probe("_i"), probe("_s"))
     P(G.assign("gw", n(0)), {"k": "while", "c": [G.st_expr(G.binop("<", v("gw"), n(2)))], "body": [probe("_s"), G.assign("_s", n(5)), G.assign("gw", G.binop("+", v("gw"), n(1)))]}, probe("_s"))
+    # locals bound by the condition block of while are gone in the body; the body's assignment reaches the outer holder
+    P({"k": "private", "name": "_a", "x": n(100)}, G.assign("gw", n(0)),
+      {"k": "while", "c": [{"k": "private", "name": "_a", "x": n(1)}, {"k": "private", "name": "_b", "x": n(2)}, G.st_expr(G.binop("<", v("gw"), n(2)))],
+       "body": [probe("_b"), rd("_a"), G.assign("_a", n(5)), G.assign("gw", G.binop("+", v("gw"), n(1)))]}, rd("_a"))
+    # a name assigned nil stays bound where it is
+    P({"k": "private", "name": "_a", "x": n(1)}, G.assign("_a", {"k": "nil"}), G.st_expr(G.call([G.assign("_A", n(2))])), rd("_a"))
+    P({"k": "private", "name": "_a", "x": n(1)}, G.st_expr(G.call([{"k": "private", "name": "_a", "x": n(2)}, G.assign("_a", {"k": "nil"}), rd("_a"), G.assign("_a", n(3)), rd("_a")])), rd("_a"))
     # params / private bind in the current scope
     P({"k": "private", "name": "_a", "x": n(1)}, G.st_expr({"k": "callw", "arg": A(n(7), n(8)), "body": [{"k": "params", "names": ["_a", "_b"]}, rd("_a"), rd("_b")]}), rd("_a"), probe("_b"))
     P({"k": "private", "name": "_b", "x": n(1)}, G.st_expr({"k": "callw", "arg": A(n(7)), "body": [{"k": "params", "names": ["_a", "_B"]}, probe("_b"), G.assign("_b", n(5)), rd("_b")]}), rd("_b"))
